@@ -138,6 +138,30 @@ def run_case(case):
                 upd["pad"] = "q" * cur_pad
             if not upd:
                 upd["pad"] = "p" * max(0, cur_pad + d)
+            if (case["seed"] + si) % 5 == 0:
+                # an update the library refuses (a key / value that is neither str nor bytes) must leave the file as it is
+                bad_upd = [{"k-int": 1}, {5: "abc"}, {"k-float": 2.5, "ok": "x"}, {"k-list": ["a"]}][(case["seed"] // 5 + si) % 4]
+                with open(fpath, "rb") as f_:
+                    before_bad = f_.read()
+                try:
+                    update_file_custom_metadata(fpath, dict(bad_upd))
+                    counters["refused_updates_accepted"] = counters.get("refused_updates_accepted", 0) + 1
+                    accepted_bad = True
+                except Exception as e_:
+                    accepted_bad = False
+                    counters["refused_updates"] = counters.get("refused_updates", 0) + 1
+                with open(fpath, "rb") as f_:
+                    after_bad = f_.read()
+                if not accepted_bad and after_bad != before_bad:
+                    res["failures"].append({"kind": "file_changed_by_refused_update", "size_before": len(before_bad), "size_after": len(after_bad),
+                                            "update": repr(bad_upd)[:60], "step": si, "target": target})
+                    break
+                if accepted_bad:
+                    # (not refused after all: the file must at least still be a valid file holding the old keys; the model is re-read)
+                    ia_ = R.read_file(fpath, data_dir=os.path.dirname(fpath), check_pages=False)
+                    for code, where, detail in ia_.diags:
+                        res["failures"].append({"kind": "invalid_after_update", "code": code, "where": where, "detail": detail[:120], "step": si, "target": target})
+                    break
             size_before = os.path.getsize(fpath)
             with open(fpath, "rb") as f:
                 before = f.read()
@@ -246,4 +270,4 @@ def coverage_extra(agg):
 
 
 def required(tier):
-    return {"updates_verified": 300, "deltaclass:-1..-7": 15, "deltaclass:<=-8": 15, "deltaclass:+1..+7": 15, "deltaclass:>=+8": 15, "deltaclass:0": 5, "multi_key_removals": 10, "frames_with_attrs": 20}
+    return {"updates_verified": 300, "deltaclass:-1..-7": 15, "deltaclass:<=-8": 15, "deltaclass:+1..+7": 15, "deltaclass:>=+8": 15, "deltaclass:0": 5, "multi_key_removals": 10, "frames_with_attrs": 20, "refused_updates": 20}
